@@ -87,7 +87,7 @@ PROPS = {
         floor={'quick': 300, 'thorough': 1000},
     ),
     'C09': dict(
-        runs=[dict(src='c09_invalid_calls.c')],
+        runs=[dict(src='c09_invalid_calls.c', ldflags='-Wl,--wrap=time,--wrap=gettimeofday')],
         level='exploration',
         rule=('case = all call sequences of depth 3 from a 28-call alphabet of valid and '
               'invalid calls (wrong mode, misaligned/negative/zero counts, bad whence, negative/out-of-range seek, unknown command, NULL data, bad string '
